@@ -673,6 +673,7 @@ func ruleOwnGoroutine(c *Ctx, r *R, op ownedParam, key string, uses []ownUse) {
 	// the deferred Close must exist and dominate all Next; wg.Done must be deferred before it
 	var deferClose, deferDone *ssa.Defer
 	var firstNext ssa.Instruction
+	var extraClose *ssa.Call
 	instrs(clo, func(b *ssa.BasicBlock, i int, in ssa.Instruction) {
 		switch x := in.(type) {
 		case *ssa.Defer:
@@ -697,6 +698,10 @@ func ruleOwnGoroutine(c *Ctx, r *R, op ownedParam, key string, uses []ownUse) {
 		case *ssa.Call:
 			if x.Call.IsInvoke() && (x.Call.Method.Name() == "Next" || x.Call.Method.Name() == "Peek") && isVal(x.Call.Value) && firstNext == nil {
 				firstNext = x
+			}
+			// an explicit Close next to the deferred one (an eager release on the error path): that path closes twice
+			if x.Call.IsInvoke() && x.Call.Method.Name() == "Close" && isVal(x.Call.Value) && extraClose == nil {
+				extraClose = x
 			}
 			// lent to a helper that reads it
 			if cal := staticCallee(&x.Call); cal != nil && firstNext == nil {
@@ -731,6 +736,10 @@ func ruleOwnGoroutine(c *Ctx, r *R, op ownedParam, key string, uses []ownUse) {
 	}
 	if deferClose == nil && !delegated {
 		r.violated(key, clo.Pos(), "the goroutine that owns "+op.param.Name()+" does not `defer "+op.param.Name()+".Close()`")
+		return
+	}
+	if deferClose != nil && extraClose != nil {
+		r.violated(key, extraClose.Pos(), "the goroutine that owns "+op.param.Name()+" closes it explicitly here and again through its deferred Close when it returns: a second Close on one path (a Pipe receiver panics on it)")
 		return
 	}
 	if delegated {
